@@ -42,3 +42,11 @@ MUTANTS["C02"] = [
     ("array_extent_center", "lentil/extent.py", "    cmin = int(-(shape[1]//2) + shift[1])", "    cmin = int(-((shape[1]-1)//2) + shift[1])"),
     ("phasor_sign", "lentil/plane.py", "amp*np.exp(2*np.pi*1j*opd/wavefront.wavelength)", "amp*np.exp(-2*np.pi*1j*opd/wavefront.wavelength)"),
 ]
+MUTANTS["C03"] = [
+    ("intensity_incoherent", "lentil/wavefront.py", "        out = np.zeros(self.shape, dtype=float)\n        for field in lentil.field.reduce(self.data):", "        out = np.zeros(self.shape, dtype=float)\n        for field in self.data:"),
+    ("slice_offset_center", "lentil/helper.py", "        slice_center = slice_shape//2", "        slice_center = (slice_shape-1)//2"),
+    ("amp_not_masked", "lentil/plane.py", "self.amplitude[s] * mask[s]", "self.amplitude[s]"),
+    ("field_offset_dropped", "lentil/propagate.py", "offset=field.offset, unitary=True)", "offset=(0, 0), unitary=True)"),
+    ("dft_offset_sign", "lentil/fourier.py", "np.outer(R+offsetr, U-shiftr)", "np.outer(R-offsetr, U-shiftr)"),
+    ("mask_index", "lentil/plane.py", "mask = self.mask if self.mask.ndim < 3 else self.mask[n]", "mask = self.mask if self.mask.ndim < 3 else self.mask[0]"),
+]
